@@ -35,6 +35,8 @@ def build(chk):
     chk.add(ob('O3.wrong_accessor_kind_refused', 'h_wrong_accessor_kind', 'a direct accessor on a masked reference is refused', bounds=B))
     chk.add(ob('O3.measure_arguments', 'h_measure_arguments', 'argument arrays of mismatched length raise std::invalid_argument before any element access; scalars adopt the array length', bounds='all length triples 0..%d' % N))
     chk.add(ob('O4.Box_IntersectsTask', 'h_box_intersects_task', 'hand-written task (PyImathBox.cpp): results[p] = box.intersects(points[p]) for start <= p < end only', bounds=B + '; Box3i and V3i points with arbitrary contents', timeout=400))
+    chk.add(ob('O4.Box_ExtendByTask', 'h_box_extend_task', 'hand-written task (PyImathBox.cpp): ExtendByTask::execute(start,end,tid) extends the worker box boxes[tid] - whatever it already holds - by points[start..end) and leaves the other workers\' boxes alone (inductive step: any number of sub-ranges per worker id, any order)',
+               bounds=B + '; three worker boxes with arbitrary contents, arbitrary worker id, V3i points with arbitrary contents', timeout=400, unwind=max(6 * N + 8, 20)))
     chk.stubs += ['__cxa_begin_catch / std::terminate (unreachable)', 'shared_array reference counts start at 1000']
     chk.assumptions += ['tasks are built by the wrapper exactly as VectorizedFunctionN::apply builds them: one accessor per argument of the kind matching the array (direct / masked / scalar wrapper)',
                         'pen-and-paper step: (i) result[i] == op(args[i]) on [start,end), (ii) nothing else written, (iii) arguments only read, for EVERY sub-range  ==>  the outcome of any partition of [0,len), in any order or concurrently, equals the single-range outcome; threads themselves are not encoded',
